@@ -12,6 +12,7 @@ CONSTANTS
   Inter = {TRUE}
   Multis = {FALSE}
   Muts = {0, 1, 2, 3}
+  DefInts = {FALSE}
   RouteIds = {1}
   Reconfs = {0}
   Rounds = 1
